@@ -636,3 +636,96 @@ func lemmaCreateThenMapQueue(data []byte, cap uint32) {
 //@   loop 0 invariant -1 <= rangeindex && rangeindex < len(config.BufferSliceSizes) && 0 <= sum && sum <= 4294967296 * (rangeindex + 1)
 //@   loop 0 invariant forall j in [0, rangeindex + 1): config.BufferSliceSizes[j].Size <= config.ShareMemoryBufferCap && config.BufferSliceSizes[j].Percent <= sum
 //@   modifies nothing
+
+// ---------------------------------------------------------------------------
+// C15: the stream pool (session_manager.go)
+// ---------------------------------------------------------------------------
+//@ pure wfPool(p *streamPool): bool = len(p.streams) == p.capacity && p.head <= p.tail && p.tail - p.head <= p.capacity
+//@ pure poolElem(p *streamPool, i int): int = p.streams[i % p.capacity]
+
+//@ func (*streamPool).push
+//@   requires wfPool(p)
+//@   assume   p.tail < 4611686018427387904   // environment: the 64-bit logical index does not wrap
+//@   ensures  old(p.tail - p.head) <  p.capacity ==> result == nil && p.tail == old(p.tail) + 1 && p.head == old(p.head) && poolElem(p, old(p.tail)) == s
+//@   ensures  old(p.tail - p.head) <  p.capacity ==> forall i in [old(p.head), old(p.tail)): using(modDistinct(i, old(p.tail), p.capacity)) ==> poolElem(p, i) == old(poolElem(p, i))
+//@   ensures  old(p.tail - p.head) >= p.capacity ==> result == errPoolFull && p.tail == old(p.tail) && p.head == old(p.head)
+//@   ensures  wfPool(p)
+//@   modifies p.tail, p.streams[0:len(p.streams)]
+
+//@ func (*streamPool).pop
+//@   requires wfPool(p)
+//@   assume   p.head < 4611686018427387904
+//@   ensures  old(p.tail) >  old(p.head) ==> result == old(poolElem(p, p.head)) && p.head == old(p.head) + 1 && p.tail == old(p.tail)
+//@   ensures  old(p.tail) <= old(p.head) ==> result == nil && p.head == old(p.head) && p.tail == old(p.tail)
+//@   ensures  wfPool(p)
+//@   modifies p.head
+
+//@ func newStreamPool
+//@   ensures  result != nil && fresh(result) && wfPool(result) && result.head == 0 && result.tail == 0 && result.capacity == poolCapacity
+//@   modifies nothing
+
+// thin contracts of what the pool calls (their bodies are verified under other properties or not at all)
+//@ func (*Stream).Close
+//@   modifies heap
+
+//@ func (*Session).OpenStream
+//@   ensures  r1 == nil ==> r0 != nil && r0.state == 0
+//@   ensures  r1 != nil ==> r0 == nil
+//@   modifies heap
+
+//@ func (*Stream).ReleaseReadAndReuse
+//@   modifies heap
+
+//@ stable streamPool.capacity, streamPool.streams, streamPool.head, streamPool.tail, Stream.pool
+
+// getOrOpenStream. ghost pending: the stream most recently popped and not yet returned or closed;
+// ghost leak: some popped stream was dropped without Close (the property's "never leaks one").
+//@ func (*streamPool).getOrOpenStream
+//@   preserves wfPool(p)
+//@   ghost var pending int = 0
+//@   ghost var leak bool = false
+//@   at call (*streamPool).pop#0 ghost leak := leak || pending != 0
+//@   at call (*streamPool).pop#0 ghost pending := r0
+//@   at call (*streamPool).pop#1 ghost leak := leak || pending != 0
+//@   at call (*streamPool).pop#1 ghost pending := r0
+//@   at call? (*Stream).Close#0 ghost pending := ite(a0 == pending, 0, pending)
+//@   exit[C15] r1 == nil ==> r0 != nil && !leak && (pending == 0 || pending == r0)
+//@   exit[C15] r1 != nil ==> r0 == nil && !leak && pending == 0
+//@   loop 0 invariant wfPool(p) && !leak && (stream == pending || pending == 0) && (stream == nil ==> pending == 0)
+
+// putOrCloseStream: every put-back either pushes the stream (after a successful reset) or closes it
+//@ func (*streamPool).putOrCloseStream
+//@   requires s != nil
+//@   preserves wfPool(p)
+//@   ghost var pushed bool = false
+//@   ghost var closed bool = false
+//@   ghost var resetOK bool = false
+//@   at call (*Stream).reset#0 ghost resetOK := r0 == nil
+//@   at call (*streamPool).push#0 ghost pushed := r0 == nil
+//@   at call (*Stream).Close#0 ghost closed := true
+//@   at call (*Stream).Close#1 ghost closed := true
+//@   at call (*Stream).Close#2 ghost closed := true
+//@   exit     pushed != closed
+//@   exit     old(s.inFallbackState) ==> closed
+//@   exit     pushed ==> resetOK
+
+//@ func (*Stream).reset
+//@   ensures  result == nil ==> !s.inFallbackState
+//@   modifies heap
+
+//@ func (*streamPool).Session
+//@   trusted  a pool always has its session stored: NewSessionManager and the hot-restart handler store it right after newStreamPool (atomic.Value contents are not modelled)
+//@   ensures  result != nil
+//@   modifies nothing
+
+//@ nonnil-elems SessionManager.pools
+
+//@ func (*SessionManager).GetStream
+//@   requires len(sm.pools) >= 1   // NewSessionManager does not validate SessionNum >= 1 (a zero value divides by zero here)
+//@   requires forall j in [0, len(sm.pools)): sm.pools[j] != nil && wfPool(sm.pools[j])
+//@   modifies heap
+
+//@ func (*SessionManager).PutBack
+//@   nilable
+//@   requires stream != nil && stream.pool != nil ==> wfPool(stream.pool)
+//@   modifies heap
